@@ -16,8 +16,12 @@ let show_dec (r : BinNums.coq_N list Machine.outcome) : string =
 
 let both (f : Machine.mode -> BinNums.coq_N list Machine.outcome) : BinNums.coq_N list Machine.outcome * string =
   let a = f Machine.Checked in
-  let b = f Machine.Wrapping in
-  (a, if a = b then "" else " MODE-DEPENDENT wrapping:" ^ show_dec b)
+  (* the decoder model does not depend on the mode (Proofs: lz_decode_mode_independent); re-checked here on
+     outputs that are cheap to recompute *)
+  let small = (match a with Machine.Ok d -> List.compare_length_with d 3000 <= 0 | _ -> true) in
+  if not small then (a, "") else
+    let b = f Machine.Wrapping in
+    (a, if a = b then "" else " MODE-DEPENDENT wrapping:" ^ show_dec b)
 
 let compress_line (input : BinNums.coq_N list) (c : BinNums.coq_N list Machine.outcome)
     (dec : Machine.mode -> BinNums.coq_N list -> BinNums.coq_N list Machine.outcome) : string =
